@@ -431,6 +431,8 @@ func (ex *Executor) load(st *State, addr Value, t types.Type) Value {
 		return v
 	case *LocV:
 		return ex.loadLoc(st, a)
+	case *symElemAddr:
+		return ex.loadElem(st, a, t)
 	case *Term:
 		// opaque pointer to T
 		return ex.loadLoc(st, &LocV{Base: a, Path: "deref!" + typeTag(t), T: t})
@@ -567,6 +569,9 @@ func (ex *Executor) store(st *State, addr Value, v Value) {
 	case *LocV:
 		st.Overlay[a.key()] = v
 		st.Emit("MemWrite", []Value{StrLit(a.Path), a.Base, v}, nil, "")
+		return
+	case *symElemAddr:
+		ex.storeElem(st, a, v)
 		return
 	case *Term:
 		st.Overlay["deref@"+a.String()] = v
@@ -907,4 +912,23 @@ func defaultAssumeNonNil(ref *Term) bool {
 		return true
 	}
 	return false
+}
+
+// rootArgs creates symbolic entry values for the parameters and free
+// variables of a function under contract.
+func (ex *Executor) rootArgs(st *State, fn *ssa.Function) (args []Value, bind []Value, params map[string]cval) {
+	params = map[string]cval{}
+	for _, prm := range fn.Params {
+		pv := ex.paramValue(st, prm.Name(), prm.Type())
+		args = append(args, pv)
+		params[prm.Name()] = cval{V: pv, T: prm.Type()}
+	}
+	for _, fv := range fn.FreeVars {
+		el := fv.Type().(*types.Pointer).Elem()
+		pv := ex.paramValue(st, fv.Name(), el)
+		cell := ex.newCell(st, pv)
+		bind = append(bind, &PtrV{Cell: cell})
+		params[fv.Name()] = cval{V: pv, T: el}
+	}
+	return
 }
